@@ -208,6 +208,12 @@ func (w *world) stepFetch(n *node, id string, withPeer bool, race bool) {
 				if it.Kind == "hu" && it.To == n.idx && it.ObjectId == n.settingsId {
 					w.count("race.settings_update_delivered_mid_fetch", 1)
 					w.stepDeliver(pos)
+					// the deletion worker is notified by the state update and is
+					// just as concurrent with the fetch as the settings update
+					if w.rng.Intn(2) == 0 {
+						w.count("race.deleter_run_mid_fetch", 1)
+						w.mon.runDeleter(n)
+					}
 					return
 				}
 			}
@@ -230,6 +236,10 @@ func (w *world) stepRestart(n *node, deleterFirst bool) error {
 	w.mon.restartsOrDeleter++
 	w.mon.per[n.idx].restarts++
 	w.count("restart", 1)
+	if w.restarted == nil {
+		w.restarted = map[int]bool{}
+	}
+	w.restarted[n.idx] = true
 	w.logf("n%d restart (deleter before settings init: %v)", n.idx, deleterFirst)
 	return n.restart(deleterFirst)
 }
@@ -428,14 +438,21 @@ func (w *world) epilogue(tag string, quiesce bool) {
 		}
 	}
 	for _, n := range w.nodes {
-		w.mon.observe(n, tag)
+		// the key of a violation only says whether the observed node has just
+		// been rebuilt from disk; the step kind goes into the witness
+		phase := "live"
+		if w.restarted[n.idx] {
+			phase = "restart"
+		}
+		w.mon.observe(n, phase, tag)
 		sig := fmt.Sprintf("%d|%s", n.updates, strings.Join(n.settings.Heads(), ","))
 		nm := w.mon.per[n.idx]
-		if sig != nm.settingsSig || tag == "restart" {
+		if sig != nm.settingsSig || phase == "restart" {
 			nm.settingsSig = sig
-			w.mon.checkSettings(n, tag)
+			w.mon.checkSettings(n, phase+"/"+tag)
 		}
 	}
+	w.restarted = map[int]bool{}
 }
 
 func (w *world) settingsChangeIds(n *node) map[string]bool {
